@@ -42,6 +42,7 @@ class RScope:
 class _Builder(ast.NodeVisitor):
     def __init__(self):
         self.cur = None
+        self.all_names = []  # (ast.Name node, scope that evaluates it)
 
     def build(self, tree):
         self.cur = RScope("module", tree, None)
@@ -162,6 +163,7 @@ class _Builder(ast.NodeVisitor):
         self.visit(node.value)
 
     def visit_Name(self, node):
+        self.all_names.append((node, self.cur))
         if isinstance(node.ctx, ast.Del):
             self.cur.weak = getattr(self.cur, "weak", set()) | {node.id}
             self.bind(node.id)
@@ -230,12 +232,27 @@ class _Builder(ast.NodeVisitor):
 
 
 def build(tree):
-    root = _Builder().build(tree)
+    b = _Builder()
+    root = b.build(tree)
+    root.all_names = b.all_names
     # global / nonlocal declared after a binding in source order is a SyntaxError, so order is irrelevant;
     # names declared global in a function are bound at module level when assigned there
     for s in root.walk():
         pass
     return root
+
+
+def visible_names(scope):
+    """names a bare identifier can refer to from `scope` (LEGB with the class-scope skip), builtins excluded"""
+    out = set()
+    s = scope
+    first = True
+    while s is not None:
+        if first or s.kind != "class":
+            out |= s.bound | s.annotated_only | s.globals | s.nonlocals
+        first = False
+        s = s.parent
+    return out
 
 
 def resolve(scope, name):
